@@ -64,8 +64,8 @@ func Bool(b bool) Value {
 }
 func Str(s string) Value { return Value{k: kStr, x: s} }
 
-func loc(a uint64) Value          { return Value{k: kLoc, n: a} }
-func mkPair(a, b Value) Value     { return Value{k: kPair, x: &pairV{a, b}} }
+func loc(a uint64) Value           { return Value{k: kLoc, n: a} }
+func mkPair(a, b Value) Value      { return Value{k: kPair, x: &pairV{a, b}} }
 func mkSlice(p, l, c uint64) Value { return Value{k: kSlice, n: p, x: &sliceV{l, c}} }
 
 var nilSlice = mkSlice(0, 0, 0)
